@@ -2,6 +2,7 @@ package rules
 
 import (
 	"go/token"
+	"go/types"
 	"regexp"
 	"sort"
 	"strings"
@@ -18,6 +19,7 @@ func init() { Registry["C20"] = C20 }
 func C20(c *Ctx) {
 	r := c.R
 	r.Explain = "Decided statically: (R1) the confirmation hash covers every field the property names — round id, threshold; per participant name and the three keys; per message data, signature, sender, recipient, event, round id, offset — each written for every element of its slice with no filter, and the digest is taken over the whole buffer; " +
+		"(R3, header) reinitDKG refuses no (participants, threshold) header that the opening proposal's validation accepts; " +
 		"(R2) CLI and node call that one function, the node feeds it the posted payload, and the API form and the parsed type agree on wire names and types so decode-encode preserves every hashed field; " +
 		"(R3) reinitDKG replays the selected messages through the ordinary processMessage in slice order up to the first signing proposal, stores the collected operations as the payload of one reinit operation carrying the hash, and registers each participant's new communication key before saving; GenerateReDKGMessage copies round id, threshold and keys from the opening proposal; " +
 		"(R4) the airgapped machine replays every request operation through the ordinary handlers (an error aborts) and hands back PubPolyBytes() of the round's keyring; the node writes exactly that into the round named by the operation and saves that round; (R5) the 0.1.4 adaptation only inserts self-confirmations and renumbers offsets. " +
@@ -319,6 +321,10 @@ func c20Replay(c *Ctx) {
 		}
 	}
 	r.Check(okStop, "C20/R3", "node.reinitDKG:stop-at-signing", "replay stops at the first event_signing_start", c.PosOf(pc), "the replay continues past a signing proposal")
+	// every (participants, threshold) header that key generation accepted is accepted by the reinitialisation: a comparison of
+	// the file's threshold with its participant count may refuse only threshold > count, and numeric floors on either may not
+	// exceed the proposal validation's
+	c20HeaderAccepted(c, fn, pc)
 	// operation: NewOperation(req.DKGID, json.Marshal(operations), ReinitDKG); ExtraData = hash; PutOperation
 	news := ssax.CallsTo(fn, load.Module+"/"+pkgTypes+".NewOperation")
 	if len(news) == 1 {
@@ -563,4 +569,90 @@ func fixedTripLoopHead(fn *ssa.Function, w ssa.CallInstruction) ssa.Instruction 
 		return cd.If
 	}
 	return nil
+}
+
+
+// c20HeaderAccepted: reinitDKG may add sanity checks on the file's header, but none that refuses a header the opening
+// proposal's validation (requests.SignatureProposalParticipantsListRequest.Validate: minimum counts, threshold <= n) lets
+// through — such a round generates keys and signs normally and then can never be reinitialised.
+func c20HeaderAccepted(c *Ctx, fn *ssa.Function, pc ssa.CallInstruction) {
+	r := c.R
+	isThr := func(v ssa.Value) bool { return strings.HasSuffix(ssax.Path(v), ".Threshold") }
+	isCnt := func(v ssa.Value) bool {
+		p := ssax.Path(v)
+		return strings.HasPrefix(p, "len(") && strings.HasSuffix(p, ".Participants)")
+	}
+	cfgConst := func(name string) (int64, bool) {
+		pk := c.P.Pkg("fsm/config")
+		if pk == nil {
+			return 0, false
+		}
+		o, ok := pk.Types.Scope().Lookup(name).(*types.Const)
+		if !ok {
+			return 0, false
+		}
+		return constInt64(o)
+	}
+	refuses := func(cd ssax.Cond, succ int) bool {
+		b := cd.If.Block().Succs[succ]
+		if len(b.Instrs) == 0 {
+			return false
+		}
+		first := b.Instrs[0]
+		return first != ssa.Instruction(pc.(*ssa.Call)) && !ssax.ReachableFrom(fn, first, pc, nil, nil)
+	}
+	var bad []string
+	n := 0
+	for _, cd := range ssax.Conds(fn) {
+		switch cd.Op {
+		case token.EQL, token.NEQ, token.LSS, token.LEQ, token.GTR, token.GEQ:
+		default:
+			continue
+		}
+		x, y, op := cd.X, cd.Y, cd.Op
+		if y == nil {
+			continue
+		}
+		if isCnt(x) && isThr(y) {
+			x, y, op = y, x, ssax.MirrorOp(op)
+		}
+		rels := [2]token.Token{op, ssax.NegateOp(op)}
+		switch {
+		case isThr(x) && isCnt(y):
+			n++
+			for i, rel := range rels {
+				if refuses(cd, i) && rel != token.GTR {
+					bad = append(bad, sprintf("a file whose threshold %s its participant count is refused at %s (key generation accepts every threshold up to and including the count)", rel, c.PosOf(cd.If)))
+				}
+			}
+		case isThr(x) || isCnt(x):
+			k, isK := ssax.ConstInt(y)
+			if !isK {
+				continue
+			}
+			n++
+			name := "SignatureProposalSigningThresholdMinCount"
+			if isCnt(x) {
+				name = "ParticipantsMinCount"
+			}
+			min, ok := cfgConst(name)
+			if !ok {
+				r.Unknown("C20/R3", "anchor:fsm/config."+name, "the proposal validation's floor must resolve", "", "constant not found")
+				continue
+			}
+			for i, rel := range rels {
+				if !refuses(cd, i) {
+					continue
+				}
+				// values refused: v rel k. Accepted by key generation: v >= min. Refusal must not contain any v >= min.
+				okRel := (rel == token.LSS && k <= min) || (rel == token.LEQ && k < min)
+				if !okRel {
+					bad = append(bad, sprintf("a file whose %s is %s %d is refused at %s although key generation accepts every value from config.%s = %d", ssax.Path(x), rel, k, c.PosOf(cd.If), name, min))
+				}
+			}
+		}
+	}
+	sort.Strings(bad)
+	r.Check(len(bad) == 0, "C20/R3", "node.reinitDKG:accepts-every-generated-header", "no header (participants, threshold) that key generation accepted is refused by the reinitialisation", c.Pos(fn.Pos()),
+		strings.Join(bad, "; ")+sprintf(" [%d header comparisons examined]: such a round generates keys and signs normally but no node creates it from the dump, no reinit operation is issued and the shares are never rebuilt", n))
 }
